@@ -113,6 +113,14 @@ fn check_allowed_values(value: Value, av_evaluator: Option<&Evaluator>) -> Value
   }
 }
 
+/// Allowed values of a collection constrain the items of the collection.
+fn check_allowed_items(values: Values, av_evaluator: Option<&Evaluator>) -> Value {
+  if av_evaluator.is_some() && values.as_vec().iter().any(|item| check_allowed_values(item.clone(), av_evaluator).is_null()) {
+    return value_null!("value not allowed");
+  }
+  Value::List(values)
+}
+
 ///
 fn build_simple_type_evaluator(feel_type: FeelType, av_evaluator: Option<Evaluator>) -> Result<ItemDefinitionEvaluatorFn> {
   ///
@@ -264,7 +272,7 @@ fn build_collection_of_simple_type_evaluator(feel_type: FeelType, av_evaluator: 
             return value_null!("item definition evaluator (CollectionOfSimpleType): expected string");
           }
         }
-        check_allowed_values(Value::List(evaluated_values), av_evaluator.as_ref())
+        check_allowed_items(evaluated_values, av_evaluator.as_ref())
       } else {
         value_null!("item definition evaluator (CollectionOfSimpleType): expected list")
       }
@@ -282,7 +290,7 @@ fn build_collection_of_simple_type_evaluator(feel_type: FeelType, av_evaluator: 
             return value_null!("item definition evaluator (CollectionOfSimpleType): expected number");
           }
         }
-        check_allowed_values(Value::List(evaluated_values), av_evaluator.as_ref())
+        check_allowed_items(evaluated_values, av_evaluator.as_ref())
       } else {
         value_null!("item definition evaluator (CollectionOfSimpleType): expected list")
       }
@@ -300,7 +308,7 @@ fn build_collection_of_simple_type_evaluator(feel_type: FeelType, av_evaluator: 
             return value_null!("item definition evaluator (CollectionOfSimpleType): expected boolean");
           }
         }
-        check_allowed_values(Value::List(evaluated_values), av_evaluator.as_ref())
+        check_allowed_items(evaluated_values, av_evaluator.as_ref())
       } else {
         value_null!("item definition evaluator (CollectionOfSimpleType): expected list")
       }
@@ -318,7 +326,7 @@ fn build_collection_of_simple_type_evaluator(feel_type: FeelType, av_evaluator: 
             return value_null!("item definition evaluator (CollectionOfSimpleType): expected date");
           }
         }
-        check_allowed_values(Value::List(evaluated_values), av_evaluator.as_ref())
+        check_allowed_items(evaluated_values, av_evaluator.as_ref())
       } else {
         value_null!("item definition evaluator (CollectionOfSimpleType): expected list")
       }
@@ -336,7 +344,7 @@ fn build_collection_of_simple_type_evaluator(feel_type: FeelType, av_evaluator: 
             return value_null!("item definition evaluator (CollectionOfSimpleType): expected time");
           }
         }
-        check_allowed_values(Value::List(evaluated_values), av_evaluator.as_ref())
+        check_allowed_items(evaluated_values, av_evaluator.as_ref())
       } else {
         value_null!("item definition evaluator (CollectionOfSimpleType): expected list")
       }
@@ -354,7 +362,7 @@ fn build_collection_of_simple_type_evaluator(feel_type: FeelType, av_evaluator: 
             return value_null!("item definition evaluator (CollectionOfSimpleType): expected date and time");
           }
         }
-        check_allowed_values(Value::List(evaluated_values), av_evaluator.as_ref())
+        check_allowed_items(evaluated_values, av_evaluator.as_ref())
       } else {
         value_null!("item definition evaluator (CollectionOfSimpleType): expected list")
       }
@@ -372,7 +380,7 @@ fn build_collection_of_simple_type_evaluator(feel_type: FeelType, av_evaluator: 
             return value_null!("item definition evaluator (CollectionOfSimpleType): expected days and time duration");
           }
         }
-        check_allowed_values(Value::List(evaluated_values), av_evaluator.as_ref())
+        check_allowed_items(evaluated_values, av_evaluator.as_ref())
       } else {
         value_null!("item definition evaluator (CollectionOfSimpleType): expected list")
       }
@@ -390,7 +398,7 @@ fn build_collection_of_simple_type_evaluator(feel_type: FeelType, av_evaluator: 
             return value_null!("item definition evaluator (CollectionOfSimpleType): expected months and years duration");
           }
         }
-        check_allowed_values(Value::List(evaluated_values), av_evaluator.as_ref())
+        check_allowed_items(evaluated_values, av_evaluator.as_ref())
       } else {
         value_null!("item definition evaluator (CollectionOfSimpleType): expected list")
       }
@@ -419,7 +427,7 @@ fn build_collection_of_referenced_type_evaluator(type_ref: String, av_evaluator:
         for item_value in values.as_vec() {
           evaluated_values.add(evaluator(item_value, evaluators));
         }
-        check_allowed_values(Value::List(evaluated_values), av_evaluator.as_ref())
+        check_allowed_items(evaluated_values, av_evaluator.as_ref())
       } else {
         value_null!("no evaluator defined for type reference '{}'", type_ref)
       }
@@ -457,7 +465,7 @@ fn build_collection_of_component_type_evaluator(item_definition: &ItemDefinition
           return value_null!("expected context, actual type is '{}' in value '{}'", item_value.type_of(), item_value);
         }
       }
-      check_allowed_values(Value::List(evaluated_values), av_evaluator.as_ref())
+      check_allowed_items(evaluated_values, av_evaluator.as_ref())
     } else {
       value_null!("expected list, actual type is '{}' in value '{}'", value.type_of(), value)
     }
